@@ -155,15 +155,23 @@ def _load_from_file_system(hashed_grammar, path, p_time, cache_path=None):
         # nothing more than a cache miss.
         return None
     else:
-        if not isinstance(module_cache_item, _NodeCacheItem):
-            return None
-        if p_time > module_cache_item.change_time:
-            # The pickle file itself is newer than the source file, but it was
+        try:
+            # A partially overwritten file can still be unpickled to an
+            # incomplete item.
+            valid = isinstance(module_cache_item, _NodeCacheItem) \
+                and isinstance(module_cache_item.lines, list) \
+                and isinstance(module_cache_item.last_used, (int, float))
+            # The pickle file itself might be newer than the source file, but
             # created from an older version of it.
+            valid = valid and p_time <= module_cache_item.change_time
+            node = module_cache_item.node
+        except (AttributeError, TypeError):
+            return None
+        if not valid:
             return None
         _set_cache_item(hashed_grammar, path, module_cache_item)
         LOG.debug('pickle loaded: %s', path)
-        return module_cache_item.node
+        return node
 
 
 def _set_cache_item(hashed_grammar, path, module_cache_item):
